@@ -19,8 +19,11 @@ type Profile struct {
 	EarlyPct     int
 	SharedCtx    bool // several requests may share one context
 	SharedSpan   int  // percent of new contexts that carry the request span of an earlier context
-	MaxReqs      int
-	Concurrent   bool // consume steps may issue several requests at once
+	// DelayedConsume: percent of consume steps whose requests arrive D virtual
+	// ms later - exactly when the flush timer or a deadline fires
+	DelayedConsume int
+	MaxReqs        int
+	Concurrent     bool // consume steps may issue several requests at once
 }
 
 // pct is an unbiased percentage draw (rapid's integer generators favour small
@@ -173,6 +176,9 @@ func GenScenario(t *rapid.T, p Profile) *Scenario {
 				n = rapid.IntRange(1, 3).Draw(t, "groupsize")
 			}
 			st := Step{Kind: StepConsume}
+			if p.DelayedConsume > 0 && pct(t, "delayed", p.DelayedConsume) {
+				st.D = rapid.SampledFrom([]int{200, 1000, 5000, 199, 1, 400}).Draw(t, "consumedelay")
+			}
 			for x := 0; x < n && next < nreq; x++ {
 				st.Reqs = append(st.Reqs, next)
 				next++
